@@ -4,7 +4,7 @@ sys.path.insert(0, "/verif/harness/props")
 from common import *
 import impl, gens, l0, peg, lexer
 
-THMS = ["C18_dialect_neutral_nodes", "C18_dialect_neutral", "C18_sensitive_refuted"]
+THMS = ["C18_dialect_neutral_nodes", "C18_dialect_neutral", "C18_dialect_neutral_total", "C18_sensitive_refuted"]
 HEADER = ("From Coq Require Import List NArith Bool.\nFrom MoSql Require Import Model.Peg Model.PegRun Model.PegSim Generated.Grammar.\nImport ListNotations.\nLocal Open Scope N_scope.\n")
 ENTRIES = ["parse", "parse_mysql", "parse_sqlserver", "parse_bigquery"]
 PNAME = {"parse": "common_parser", "parse_mysql": "mysql_parser", "parse_sqlserver": "sqlserver_parser", "parse_bigquery": "bigquery_parser"}
